@@ -173,6 +173,7 @@ impl<'a> PrettyPrinter<'a> {
         let ctx = ctx.with_mode(Mode::CodeCont);
 
         let is_single_simple = is_unnamed
+            && !has_comment_children(params.to_untyped())
             && is_only_one_and(params.children(), |it| {
                 matches!(
                     *it,
